@@ -162,6 +162,13 @@ def gen_world(rng, ntorrents=None, features=()):
             tgt = tuple(g.target(w.export, f))
             if k == 0:
                 w.add_file(tgt, f.content)
+                if rng.chance(1, 3):
+                    # a complete export image that is also reachable under another name (hard link) in a scan
+                    # directory: the run must recognise it as the export image itself and leave it alone
+                    group[0] += 1
+                    w.files[tgt] = (f.content, group[0])
+                    for a in range(rng.range(1, 3)):
+                        w.add_file(rng.choice(scan_names) + (b"alias%d_%d" % (group[0], a),), f.content, group[0])
             elif k == 1 and f.length > 0:
                 w.add_file(tgt, f.content[:rng.below(f.length)])            # shorter
             elif k == 2:
